@@ -204,95 +204,212 @@ func ruleC09_3(c *Ctx, r *Rep) {
 // ---------------------------------------------------------------------------
 // C09.2 transaction helpers
 
+// txEnd: a Commit or Rollback call that ends DoTx's transaction, in the deferred closure or in a private helper it
+// calls (with the helper's parameters bound to the call's arguments).
+type txEnd struct {
+	call     *ssa.Call
+	fn       *ssa.Function
+	bind     map[*ssa.Parameter]ssa.Value
+	isCommit bool
+	via      *ssa.Call // the call in the closure that leads to the helper (nil when in the closure itself)
+}
+
+func findTxEnds(c *Ctx, f *ssa.Function, bind map[*ssa.Parameter]ssa.Value, via *ssa.Call, depth int, out *[]txEnd) {
+	for _, b := range f.Blocks {
+		for _, in := range b.Instrs {
+			call, ok := in.(*ssa.Call)
+			if !ok {
+				continue
+			}
+			cal := call.Call.StaticCallee()
+			if cal == nil {
+				continue
+			}
+			if fnIs(cal, entPkg, "Tx.Commit") || fnIs(cal, entPkg, "Tx.Rollback") {
+				*out = append(*out, txEnd{call, f, bind, cal.Name() == "Commit", via})
+				continue
+			}
+			if depth < 2 && c.inModule(cal) && len(cal.Blocks) > 0 && !c.EntShape().isGenerated(cal) && c.PkgOf(cal) == "ent" {
+				nb := map[*ssa.Parameter]ssa.Value{}
+				for k, v := range bind {
+					nb[k] = v
+				}
+				for i, p := range cal.Params {
+					if i < len(call.Call.Args) {
+						nb[p] = call.Call.Args[i]
+					}
+				}
+				v := via
+				if v == nil {
+					v = call
+				}
+				findTxEnds(c, cal, nb, v, depth+1, out)
+			}
+		}
+	}
+}
+
+// cellOf: the local cell of `outer` that v loads (directly, through a captured variable, or through a bound parameter).
+func localCellOf(v ssa.Value, outer *ssa.Function) *ssa.Alloc {
+	for i := 0; i < 6; i++ {
+		v = strip(v)
+		if p, ok := v.(*ssa.Parameter); ok {
+			if b, ok := curBind[p]; ok {
+				v = b
+				continue
+			}
+			return nil
+		}
+		u, ok := v.(*ssa.UnOp)
+		if !ok || u.Op != token.MUL {
+			return nil
+		}
+		switch x := u.X.(type) {
+		case *ssa.Alloc:
+			if x.Parent() == outer {
+				return x
+			}
+			return nil
+		case *ssa.FreeVar:
+			if a, ok := freeVarBinding(x).(*ssa.Alloc); ok && a.Parent() == outer {
+				return a
+			}
+			return nil
+		}
+		return nil
+	}
+	return nil
+}
+
 func ruleC09_2(c *Ctx, r *Rep) {
 	fn := r.Anchor("C09.2", "(*ent.Client).DoTx")
 	if fn != nil {
-		// the inner call and `success`
+		// the operation: the call of the function-typed parameter
 		var inner *ssa.Call
 		for _, b := range fn.Blocks {
 			for _, in := range b.Instrs {
 				if call, ok := in.(*ssa.Call); ok && !call.Call.IsInvoke() {
-					if p, isP := call.Call.Value.(*ssa.Parameter); isP && p.Name() == "inner" {
+					if p, isP := call.Call.Value.(*ssa.Parameter); isP && p.Parent() == fn {
 						inner = call
 					}
 				}
 			}
 		}
-		var success *ssa.Alloc
-		for _, b := range fn.Blocks {
-			for _, in := range b.Instrs {
-				if a, ok := in.(*ssa.Alloc); ok && a.Comment == "success" {
-					success = a
-				}
+		var ends []txEnd
+		var dfn *ssa.Function
+		for _, a := range fn.AnonFuncs {
+			n := len(ends)
+			findTxEnds(c, a, map[*ssa.Parameter]ssa.Value{}, nil, 0, &ends)
+			if len(ends) > n {
+				dfn = a
 			}
 		}
-		if inner == nil || success == nil {
-			r.Fail("C09.2", "C09.2:DoTx:shape", fn.Pos(), "DoTx no longer has the inner call / success flag the rule is anchored on")
-		} else {
-			okS := true
-			nTrue := 0
-			for _, st := range allocStores(success) {
-				if cst, isC := st.Val.(*ssa.Const); isC && cst.Value != nil && cst.Value.String() == "true" {
-					nTrue++
-					// only under inner(tx) == nil
-					g := condHas(edgeConds(st.Block()), true, func(v ssa.Value) bool {
-						b, ok := v.(*ssa.BinOp)
-						return ok && b.Op == token.EQL && dependsOnCall(b.X, inner) && isNilConst(b.Y) && instrDominates(inner, b)
-					}) || condHas(edgeConds(st.Block()), false, func(v ssa.Value) bool {
-						b, ok := v.(*ssa.BinOp)
-						return ok && b.Op == token.NEQ && dependsOnCall(b.X, inner) && isNilConst(b.Y) && instrDominates(inner, b)
-					})
-					if !g || st.Parent() != fn {
-						okS = false
+		// the flag that decides between them: the boolean cell of DoTx whose value guards the Commit
+		var success *ssa.Alloc
+		okC, okR := false, false
+		nCommit := 0
+		for _, e := range ends {
+			withBindMap(e.bind, func() {
+				var cells []struct {
+					a   *ssa.Alloc
+					pol bool
+				}
+				for _, cd := range edgeConds(e.call.Block()) {
+					nc := normCond(cd.V, cd.Pol)
+					if a := localCellOf(nc.V, fn); a != nil {
+						if bt, isB := a.Type().Underlying().(*types.Pointer).Elem().Underlying().(*types.Basic); isB && bt.Kind() == types.Bool {
+							cells = append(cells, struct {
+								a   *ssa.Alloc
+								pol bool
+							}{a, nc.Pol})
+						}
 					}
 				}
-			}
-			r.Check("C09.2", "C09.2:DoTx:success-only-if-inner-nil", success.Pos(), okS && nTrue >= 1, "success := true only when inner(tx) returned nil", "DoTx marks the transaction successful although inner returned an error (or unconditionally): a failed operation is committed")
-			// deferred function: Commit only under success, Rollback otherwise
-			okC, okR := false, false
-			var dfn *ssa.Function
-			for _, a := range fn.AnonFuncs {
-				for _, b := range a.Blocks {
-					for _, in := range b.Instrs {
-						call, ok := in.(*ssa.Call)
-						if !ok {
-							continue
+				if e.isCommit {
+					nCommit++
+					okHere := false
+					for _, cl := range cells {
+						if cl.pol {
+							success = cl.a
+							okHere = true
 						}
-						cal := call.Call.StaticCallee()
-						if cal == nil || !(fnIs(cal, entPkg, "Tx.Commit") || fnIs(cal, entPkg, "Tx.Rollback")) {
-							continue
-						}
-						dfn = a
-						underSuccess := func(pol bool) bool {
-							for _, cd := range edgeConds(b) {
-								v := cd.V
-								p := cd.Pol
-								if u, isU := v.(*ssa.UnOp); isU && u.Op == token.NOT {
-									v, p = u.X, !p
-								}
-								if ld, isL := v.(*ssa.UnOp); isL && ld.Op == token.MUL {
-									if fv, isF := ld.X.(*ssa.FreeVar); isF && freeVarBinding(fv) == ssa.Value(success) && p == pol {
-										return true
-									}
-								}
-							}
-							return false
-						}
-						if cal.Name() == "Commit" && underSuccess(true) {
-							okC = true
-						}
-						if cal.Name() == "Commit" && !underSuccess(true) {
-							okC = false
-						}
-						if cal.Name() == "Rollback" && underSuccess(false) {
+					}
+					if okHere && nCommit == 1 {
+						okC = true
+					}
+					if !okHere {
+						okC = false
+					}
+				} else {
+					for _, cl := range cells {
+						if !cl.pol && (success == nil || cl.a == success) {
 							okR = true
 						}
 					}
 				}
+			})
+		}
+		if inner == nil || len(ends) == 0 {
+			r.Fail("C09.2", "C09.2:DoTx:shape", fn.Pos(), "DoTx no longer runs its operation and ends the transaction in a deferred function in a form the rule can follow")
+		} else {
+			// rollback guard may have been seen before the commit told us which cell it is: re-check
+			if success != nil && !okR {
+				for _, e := range ends {
+					if e.isCommit {
+						continue
+					}
+					withBindMap(e.bind, func() {
+						for _, cd := range edgeConds(e.call.Block()) {
+							nc := normCond(cd.V, cd.Pol)
+							if a := localCellOf(nc.V, fn); a == success && !nc.Pol {
+								okR = true
+							}
+						}
+					})
+				}
 			}
-			r.Check("C09.2", "C09.2:DoTx:commit-iff-success", fn.Pos(), okC && okR, "Commit only under success, Rollback otherwise", "DoTx's deferred function does not commit exactly when the operation succeeded and roll back otherwise")
+			r.Check("C09.2", "C09.2:DoTx:commit-iff-success", fn.Pos(), okC && okR && success != nil, "Commit only under the success flag, Rollback otherwise", "DoTx's deferred function does not commit exactly when the operation succeeded and roll back otherwise")
+			okS := success != nil
+			nTrue := 0
+			if success != nil {
+				innerNil := func(b *ssa.BasicBlock) bool {
+					return condHas(edgeConds(b), true, func(v ssa.Value) bool {
+						bo, ok := v.(*ssa.BinOp)
+						return ok && bo.Op == token.EQL && dependsOnCall(bo.X, inner) && isNilConst(bo.Y) && instrDominates(inner, bo)
+					}) || condHas(edgeConds(b), false, func(v ssa.Value) bool {
+						bo, ok := v.(*ssa.BinOp)
+						return ok && bo.Op == token.NEQ && dependsOnCall(bo.X, inner) && isNilConst(bo.Y) && instrDominates(inner, bo)
+					})
+				}
+				for _, st := range allocStores(success) {
+					if st.Parent() != fn {
+						okS = false
+						continue
+					}
+					if cst, isC := st.Val.(*ssa.Const); isC && cst.Value != nil {
+						if cst.Value.String() == "true" {
+							nTrue++
+							if !innerNil(st.Block()) {
+								okS = false
+							}
+						}
+						continue
+					}
+					// success = (err == nil) with err the operation's result
+					if bo, isB := st.Val.(*ssa.BinOp); isB && bo.Op == token.EQL && isNilConst(bo.Y) && dependsOnCall(bo.X, inner) && instrDominates(inner, st) {
+						nTrue++
+						continue
+					}
+					okS = false
+				}
+			}
+			var pos token.Pos
+			if success != nil {
+				pos = success.Pos()
+			}
+			r.Check("C09.2", "C09.2:DoTx:success-only-if-inner-nil", pos, okS && nTrue >= 1, "the success flag is set only when inner(tx) returned nil", "DoTx marks the transaction successful although inner returned an error (or unconditionally): a failed operation is committed")
 			if dfn != nil {
-				ok, why := commitErrorReachesResult(fn, dfn)
+				ok, why := commitErrorReachesResult(c, fn, dfn, ends)
 				r.Check("C09.2", "C09.2:DoTx:commit-error-reported", dfn.Pos(), ok, "a Commit/Rollback error is stored in the result unless the result already is a context error", why)
 			}
 		}
@@ -342,21 +459,131 @@ func ruleC09_2(c *Ctx, r *Rep) {
 	}
 }
 
-// commitErrorReachesResult: in DoTx's deferred closure, from the `err != nil` edge every path to the exit
-// stores into the named result, unless it passed the true edge of errors.Is(<named result>, context.Canceled|DeadlineExceeded).
-func commitErrorReachesResult(outer, dfn *ssa.Function) (bool, string) {
+// commitErrorReachesResult: wherever the transaction is ended (the deferred closure, or a private helper whose result
+// the closure stores into DoTx's named result), from the `err != nil` edge of the Commit/Rollback error every path
+// to the exit makes the operation's result non-nil — a store into the named result, or (in a helper) returning
+// anything but the unchanged previous result — unless it passed the true edge of a test that the previous result is
+// a context cancellation (errors.Is(prev, context.Canceled|DeadlineExceeded), possibly inside a predicate helper).
+func commitErrorReachesResult(c *Ctx, outer, dfn *ssa.Function, ends []txEnd) (bool, string) {
+	// the named result cell of DoTx
+	var resCell *ssa.Alloc
+	for _, b := range outer.Blocks {
+		for _, in := range b.Instrs {
+			if a, ok := in.(*ssa.Alloc); ok && isResultSpillOrNamed(a, outer) {
+				resCell = a
+			}
+		}
+	}
 	isResultCell := func(v ssa.Value) bool {
-		fv, ok := v.(*ssa.FreeVar)
-		if !ok {
+		switch x := v.(type) {
+		case *ssa.FreeVar:
+			a, ok := freeVarBinding(x).(*ssa.Alloc)
+			return ok && resCell != nil && a == resCell
+		case *ssa.Alloc:
+			return resCell != nil && x == resCell
+		}
+		return false
+	}
+	// the function that tests the Commit/Rollback error
+	f, bind := dfn, map[*ssa.Parameter]ssa.Value{}
+	helperForm := false
+	for _, e := range ends {
+		if e.fn != dfn {
+			f, bind, helperForm = e.fn, e.bind, true
+			// the closure must store the helper's result into the named result
+			stored := false
+			if e.via != nil {
+				if refs := e.via.Referrers(); refs != nil {
+					for _, u := range *refs {
+						if st, ok := u.(*ssa.Store); ok && isResultCell(st.Addr) {
+							stored = true
+						}
+					}
+				}
+			}
+			if !stored {
+				return false, "the helper that ends the transaction computes the error to report, but the deferred function does not store it into DoTx's result"
+			}
+		}
+	}
+	var ok bool
+	var why string
+	withBindMap(bind, func() { ok, why = commitErrPaths(c, outer, f, helperForm, isResultCell) })
+	return ok, why
+}
+
+func isResultSpillOrNamed(a *ssa.Alloc, fn *ssa.Function) bool {
+	// a named result of error type: the alloc's comment is the result's name
+	res := fn.Signature.Results()
+	for i := 0; i < res.Len(); i++ {
+		if res.At(i).Name() != "" && res.At(i).Name() == a.Comment && isErrorType(res.At(i).Type()) {
+			return true
+		}
+	}
+	return false
+}
+
+// isPrevResult: v is the operation's result so far — a load of the named result cell, or a parameter bound to one.
+func isPrevResult(v ssa.Value, isResultCell func(ssa.Value) bool) bool {
+	for i := 0; i < 6; i++ {
+		v = strip(v)
+		if p, ok := v.(*ssa.Parameter); ok {
+			if b, ok := curBind[p]; ok {
+				v = b
+				continue
+			}
 			return false
 		}
-		b := freeVarBinding(fv)
-		a, ok := b.(*ssa.Alloc)
-		return ok && a.Parent() == outer && a.Comment == "finalErr"
+		if u, ok := v.(*ssa.UnOp); ok && u.Op == token.MUL {
+			return isResultCell(u.X)
+		}
+		return false
 	}
-	// entry of the error handling: If on err != nil where err is phi/load of Commit/Rollback result
-	var start *ssa.BasicBlock
-	for _, b := range dfn.Blocks {
+	return false
+}
+
+// ctxErrTest: call tests that the previous result is a context cancellation / deadline error.
+func ctxErrTest(c *Ctx, call *ssa.Call, isResultCell func(ssa.Value) bool, depth int) bool {
+	cal := call.Call.StaticCallee()
+	if cal == nil {
+		return false
+	}
+	if fnPkgPath(cal) == "errors" && cal.Name() == "Is" {
+		if !isPrevResult(call.Call.Args[0], isResultCell) {
+			return false
+		}
+		s1 := sources(call.Call.Args[1])
+		return s1["global:Canceled"] || s1["global:DeadlineExceeded"]
+	}
+	// a predicate helper: func(err error) bool whose only calls are errors.Is(err, context.Canceled|DeadlineExceeded)
+	if depth < 2 && c.inModule(cal) && len(cal.Blocks) > 0 && len(cal.Params) == 1 && len(call.Call.Args) == 1 && isPrevResult(call.Call.Args[0], isResultCell) {
+		n := 0
+		for _, b := range cal.Blocks {
+			for _, in := range b.Instrs {
+				ic, ok := in.(*ssa.Call)
+				if !ok {
+					continue
+				}
+				k := ic.Call.StaticCallee()
+				if k == nil || fnPkgPath(k) != "errors" || k.Name() != "Is" || strip(ic.Call.Args[0]) != ssa.Value(cal.Params[0]) {
+					return false
+				}
+				s1 := sources(ic.Call.Args[1])
+				if !(s1["global:Canceled"] || s1["global:DeadlineExceeded"]) {
+					return false
+				}
+				n++
+			}
+		}
+		return n > 0
+	}
+	return false
+}
+
+func commitErrPaths(c *Ctx, outer, f *ssa.Function, helperForm bool, isResultCell func(ssa.Value) bool) (bool, string) {
+	// entry of the error handling: the non-nil edge of a test of the Commit/Rollback error
+	var starts []*ssa.BasicBlock
+	for _, b := range f.Blocks {
 		if len(b.Instrs) == 0 {
 			continue
 		}
@@ -364,17 +591,23 @@ func commitErrorReachesResult(outer, dfn *ssa.Function) (bool, string) {
 		if !ok {
 			continue
 		}
-		bo, ok := iff.Cond.(*ssa.BinOp)
-		if !ok || bo.Op != token.NEQ || !isNilConst(bo.Y) {
+		nc := normCond(iff.Cond, true)
+		bo, ok := nc.V.(*ssa.BinOp)
+		if !ok || !isNilConst(bo.Y) || (bo.Op != token.NEQ && bo.Op != token.EQL) {
 			continue
 		}
 		src := sources(bo.X)
 		if src["call:Commit"] || src["call:Rollback"] {
-			start = b.Succs[0]
+			nonNilIsTrueEdge := (bo.Op == token.NEQ) == nc.Pol
+			if nonNilIsTrueEdge {
+				starts = append(starts, b.Succs[0])
+			} else {
+				starts = append(starts, b.Succs[1])
+			}
 		}
 	}
-	if start == nil {
-		return false, "the deferred function does not test the Commit/Rollback error"
+	if len(starts) == 0 {
+		return false, "the code that ends the transaction does not test the Commit/Rollback error"
 	}
 	type st struct {
 		b      *ssa.BasicBlock
@@ -383,6 +616,7 @@ func commitErrorReachesResult(outer, dfn *ssa.Function) (bool, string) {
 	}
 	seen := map[st]bool{}
 	var bad string
+	const msg = "a failed Commit (or Rollback) can leave the result untouched although the result is not known to be a context error: the operation reports success / the wrong error while nothing was committed"
 	var walk func(s st)
 	walk = func(s st) {
 		if seen[s] || bad != "" {
@@ -393,36 +627,65 @@ func commitErrorReachesResult(outer, dfn *ssa.Function) (bool, string) {
 			if sto, ok := in.(*ssa.Store); ok && isResultCell(sto.Addr) {
 				s.stored = true
 			}
-			if _, ok := in.(*ssa.Return); ok {
-				if !s.stored && !s.guard {
-					bad = "a failed Commit (or Rollback) can leave the result untouched although the result is not known to be a context error: the operation reports success / the wrong error while nothing was committed"
+			if ret, ok := in.(*ssa.Return); ok {
+				if helperForm {
+					// what the helper returns becomes the result: returning the previous result unchanged is "untouched"
+					unchanged := len(ret.Results) == 0
+					if len(ret.Results) > 0 {
+						rv := retResult(ret, len(ret.Results)-1)
+						unchanged = isPrevResult(rv, isResultCell) || isNilConst(rv)
+						if p, isP := strip(rv).(*ssa.Parameter); isP {
+							if b, has := curBind[p]; has {
+								unchanged = isPrevResult(b, isResultCell)
+							}
+						}
+					}
+					if unchanged && !s.guard {
+						bad = msg
+					}
+				} else if !s.stored && !s.guard {
+					bad = msg
 				}
 				return
 			}
 		}
 		if len(s.b.Succs) == 2 {
 			iff := s.b.Instrs[len(s.b.Instrs)-1].(*ssa.If)
+			nc := normCond(iff.Cond, true)
 			g := false
-			if call, ok := iff.Cond.(*ssa.Call); ok {
-				if cal := call.Call.StaticCallee(); cal != nil && fnPkgPath(cal) == "errors" && cal.Name() == "Is" {
-					a0, a1 := call.Call.Args[0], call.Call.Args[1]
-					if ld, isL := a0.(*ssa.UnOp); isL && isResultCell(ld.X) {
-						s1 := sources(a1)
-						if s1["global:Canceled"] || s1["global:DeadlineExceeded"] {
-							g = true
-						}
-					}
+			if call, ok := nc.V.(*ssa.Call); ok && ctxErrTest(c, call, isResultCell, 0) {
+				g = true
+			}
+			// `prev == nil` false edge / `prev != nil` true edge: the previous result is already an error — returning
+			// it unchanged still reports a failure
+			prevNonNilEdge := -1
+			if bo, ok := nc.V.(*ssa.BinOp); ok && isNilConst(bo.Y) && isPrevResult(bo.X, isResultCell) {
+				if (bo.Op == token.NEQ) == nc.Pol {
+					prevNonNilEdge = 0
+				} else {
+					prevNonNilEdge = 1
 				}
 			}
-			walk(st{s.b.Succs[0], s.guard || g, s.stored})
-			walk(st{s.b.Succs[1], s.guard, s.stored})
+			gt, gf := s.guard, s.guard
+			if g {
+				if nc.Pol {
+					gt = true
+				} else {
+					gf = true
+				}
+			}
+			_ = prevNonNilEdge
+			walk(st{s.b.Succs[0], gt, s.stored})
+			walk(st{s.b.Succs[1], gf, s.stored})
 			return
 		}
 		for _, n := range s.b.Succs {
 			walk(st{n, s.guard, s.stored})
 		}
 	}
-	walk(st{start, false, false})
+	for _, b := range starts {
+		walk(st{b, false, false})
+	}
 	return bad == "", bad
 }
 
